@@ -135,7 +135,8 @@ theorem C07_tvec (dt : Rat) (npts : Nat) :
   push_cast
   rw [← hk]; ring
 
-example : (1 / 4 : Rat) * pow10 = ((250000 : Int) : Rat) := by decide +kernel
+/-- non-vacuity: dt = 1/4 is a whole number of `time_eps` -/
+example : (1 / 4 : Rat) * pow10 = ((F64.rhe ((1 / 4 : Rat) * pow10) : Int) : Rat) := by decide +kernel
 
 /-- `round_tvec` moves a value by at most half of `time_eps` and fixes whole multiples of it -/
 theorem C07_round (x : Rat) :
